@@ -432,7 +432,51 @@ fn c05_addition(k: usize, salt: usize) -> (Type, Presence) {
 
 /// pair `p`: (V1 module, V2 module). Top-level type `Msg`; the versioned type is `Msg` itself or
 /// `Inner` (nested in a root component, in an extension addition, or as list element).
+/// pairs 60..: an untagged CHOICE as component of a SET with explicit tags; V2 appends alternatives
+/// whose tags are smaller than those of all root alternatives - the place of the CHOICE in the
+/// canonical order of the SET must not move (only root alternatives count, X.680 8.6)
+fn c05_choice_in_set_pair(p: usize) -> (ZooModule, ZooModule) {
+    let v = p - 60;
+    let ctx = |n: u32| Some(Tag { class: TagClass::Context, number: n });
+    let build = |version: usize| -> ZooModule {
+        let mut alts = vec![
+            Alt { name: "text".into(), tag: ctx(5), ty: Type::Str { cs: Charset::Ia5, size: Some(Size::range(0, Some(5), false)) } },
+            Alt { name: "flag".into(), tag: ctx(6), ty: Type::Boolean },
+        ];
+        if v % 2 == 1 {
+            // V1 already knows one addition
+            alts.push(Alt { name: "known".into(), tag: ctx(8), ty: Type::Null });
+        }
+        if version == 2 {
+            alts.push(Alt { name: "number".into(), tag: ctx(2), ty: Type::int(0, 255) });
+            alts.push(Alt { name: "more".into(), tag: ctx(1), ty: Type::Boolean });
+        }
+        let pick = Def { name: "Pick".into(), tag: None, ty: Type::Choice { alts, root: Some(2) } };
+        // the CHOICE (tag [5]) sits behind `id` and in front of `seal` in canonical order; with the
+        // appended [1] / [2] counted it would move to the front
+        let (id_tag, seal_tag) = if v / 2 == 0 { (3, 7) } else { (4, 9) };
+        let mut id = comp("id", Type::int(0, 255), Presence::Mandatory);
+        id.tag = ctx(id_tag);
+        let mut seal = comp("seal", Type::Boolean, Presence::Mandatory);
+        seal.tag = ctx(seal_tag);
+        let comps = if v / 2 == 0 { vec![id, comp("pick", Type::Ref("Pick".into()), Presence::Mandatory), seal] } else { vec![seal, comp("pick", Type::Ref("Pick".into()), Presence::Mandatory), id] };
+        let msg = Def { name: "Msg".into(), tag: None, ty: Type::Set(Fields { comps, root: None }) };
+        ZooModule {
+            module: Module::simple(&format!("C05P{p}V{version}"), vec![pick, msg]),
+            conformance: true,
+            group: "c05".into(),
+            meta: serde_json::json!({"pair": p, "version": version, "kind": "choice", "placement": "untagged-component-of-tagged-set", "v1_additions": v % 2, "appended": 2}),
+        }
+    };
+    (build(1), build(2))
+}
+
+pub const C05_EXTRA_PAIRS: std::ops::Range<usize> = 60..64;
+
 pub fn c05_pair(p: usize) -> (ZooModule, ZooModule) {
+    if p >= 60 {
+        return c05_choice_in_set_pair(p);
+    }
     let kind = p % 5; // 0 sequence, 1 set, 2 choice, 3 enumerated, 4 sequence (other placement mix)
     let placement = (p / 5) % 4; // 0 top, 1 root component, 2 extension addition of an outer type, 3 list element
     let j = (p / 20) % 3; // additions V1 already has
@@ -537,6 +581,20 @@ pub fn c16_helper_defs() -> Vec<Def> {
         },
         Def { name: "RefSeq".into(), tag: None, ty: Type::Sequence(Fields { comps: vec![comp("q", Type::int(0, 1), Presence::Mandatory)], root: None }) },
         Def { name: "RefPriv".into(), tag: Some(Tag { class: TagClass::Private, number: 40 }), ty: Type::Boolean },
+        // an untagged CHOICE whose extension alternative has a smaller tag than every root
+        // alternative: only the root alternatives count (X.680 8.6), i.e. PRIVATE 50
+        Def {
+            name: "RefChoiceExt".into(),
+            tag: None,
+            ty: Type::Choice {
+                alts: vec![
+                    Alt { name: "x".into(), tag: Some(Tag { class: TagClass::Private, number: 50 }), ty: Type::Boolean },
+                    Alt { name: "y".into(), tag: Some(Tag { class: TagClass::Private, number: 51 }), ty: Type::Null },
+                    Alt { name: "z".into(), tag: Some(Tag { class: TagClass::Application, number: 60 }), ty: Type::int(0, 3) },
+                ],
+                root: Some(2),
+            },
+        },
     ]
 }
 
@@ -569,6 +627,7 @@ fn c16_untagged_pool(next: &mut dyn FnMut() -> u64) -> Vec<Type> {
         Type::Ref("RefPriv".into()),
         u17,
         Type::Enumerated { items: vec![("a".into(), None), ("b".into(), None)], root: None },
+        Type::Ref("RefChoiceExt".into()),
     ]
 }
 
@@ -595,6 +654,7 @@ pub fn c16_pair_family() -> Vec<Fields> {
         (17, Type::SetOf { elem: Box::new(small()), size: Some(Size::fixed(1, false)) }),
         (17, Type::Set(Fields { comps: vec![comp("q", small(), Presence::Mandatory)], root: None })),
         (10, Type::Enumerated { items: vec![("a".into(), None), ("b".into(), None)], root: None }),
+        (3050, Type::Ref("RefChoiceExt".into())),
     ];
     let mut out = Vec::new();
     for i in 0..cands.len() {
